@@ -33,7 +33,9 @@ in the same iteration; C05.2 an instance leaves Cell.apps only after
 release_identity; C05.3 the revocation pass skips an instance only under
 identity None / no group / identity < count and compares with the group's
 count; C05.6 an identity group is dropped from the registry only when no
-instance references it (reference equality).
+instance references it (reference equality). Fourth round: C05.5 an identity
+changes hands only inside a scheduling cycle or restore_placement (shared with
+C09.4).
 Does NOT decide uniqueness over histories of count changes racing with
 restores (contents of sets over time).
 """
